@@ -25,7 +25,7 @@ PROPERTY = {
                    "executed blocks) and every initial state: the reference run (python back end, jit_maxline=1, "
                    "max_exec_per_call=1, clear_jitted_blocks() before every step) gives the final state; then for 6 (quick) "
                    "configurations drawn from back end in {python, gcc} x jit_maxline in {1,2,3,5,50} x max_exec_per_call in "
-                   "{0,1,2,7} x {cold, warm: the program is run a first time on the same jitter and the state restored} x cache limit "
+                   "{0,1,2,7} x {cold, warm: the program is run a first time on the same jitter and the state restored; breakpoints registered before or after the warm-up} x cache limit "
                    "in {none, 1, 2, 4 blocks (evictions)} the run reaches the return address with the same registers, flags, data "
                    "page, stack, code page and exception flags, and the same sequence of hits of a sparse set of breakpoints. "
                    "Bounded: exploration, not proof.",
@@ -42,7 +42,7 @@ PROPERTY = {
 
 def gen_config(rng, quick_gcc=True):
     return {"backend": rng.choice(("python", "python", "gcc")), "maxline": rng.choice((1, 2, 3, 5, 50)), "max_exec": rng.choice((0, 0, 1, 2, 7)),
-            "warm": rng.random() < 0.4, "cache_limit": rng.choice((None, None, 1, 2, 4))}
+            "warm": rng.random() < 0.4, "late_bps": rng.random() < 0.5, "cache_limit": rng.choice((None, None, 1, 2, 4))}
 
 
 def reference(code, st, bps=()):
@@ -57,12 +57,18 @@ def reference(code, st, bps=()):
 def run_config(cfg, code, st, bps=()):
     r = jitrun.Run(cfg["backend"], code, st, maxline=cfg["maxline"], max_exec=cfg["max_exec"], cache_limit=cfg["cache_limit"])
     r.limit_steps()
-    for a in bps:
-        r.j.add_breakpoint(a, lambda j, a=a: r.hits.append(a) or True)
+    late = cfg["warm"] and cfg.get("late_bps")
+    if not late:
+        for a in bps:
+            r.j.add_breakpoint(a, lambda j, a=a: r.hits.append(a) or True)
     if cfg["warm"]:
         r.go()
         r.reset_state()
         r.limit_steps()
+        if late:
+            # the breakpoints arrive on a warm cache: blocks holding their addresses are already translated
+            for a in bps:
+                r.j.add_breakpoint(a, lambda j, a=a: r.hits.append(a) or True)
     res = r.go()
     return r, res
 
@@ -96,7 +102,13 @@ class PartitionCases(BoundedContract):
     def check(self, case):
         rng, text, st = self.gen(case)
         code, labels, instrs = jitrun.assemble(text)
-        bps = sorted(rng.sample(instrs, min(len(instrs), rng.choice((0, 1, 2, 3)))))
+        bps = set(rng.sample(instrs, min(len(instrs), rng.choice((0, 1, 2, 3)))))
+        if rng.random() < 0.6:
+            # one-byte instructions that end a translated block without starting it: the RET of the subroutine, the last
+            # instruction before a label
+            one = [a for a, b in zip(instrs, instrs[1:]) if b - a == 1] + [labels["sub"] + 5]
+            bps |= set(rng.sample(one, min(len(one), 2)))
+        bps = sorted(bps)
         ref, res = reference(code, st, bps)
         if res is not False or ref.hits[-1:] != [jitrun.END] or ref.fault:
             return (False, "harness: the reference run does not reach the return address (%r, fault %r, %d steps)" % (res, ref.fault, ref.steps), True)
